@@ -71,7 +71,8 @@ def rand_class(rng, nmax=12, dup=False, mixed=False):
         elif r < 0.24:
             decos = ["classmethod"]
         elif r < 0.34:
-            decos = [rng.choice(["property", "abstractmethod", "cache"])]
+            # also decorators that are calls or attributes (getDecoratorName: Call with a Name callee, Call with another callee, Attribute)
+            decos = [rng.choice(["property", "abstractmethod", "cache", "lru_cache(maxsize=8)", "functools.cache", "app.route(1)", "staticmethod_like", "wraps(staticmethod)"])]
         # stacked decorators: the static/class marker may sit above, below or between other decorators
         if decos and rng.random() < 0.4:
             for _ in range(rng.choice([1, 1, 2])):
@@ -129,6 +130,51 @@ def threshold_cases():
         for lo, me in pairs:
             out.append(mk_case(dict(name="K", bases=[], members=members), "threshold", {"position": "PBody", "pattern": "disjoint", "k": k}, low=lo, med=me))
     return out
+
+
+def stress_cases(rng, n):
+    """union-find stress family (classgen.unionfind_stress_terms): many methods, every attribute shared by two or three of them,
+    self-calls mixed in; each class is analysed several times because the unions happen in Go map iteration order"""
+    out = []
+    for t in cg.unionfind_stress_terms(rng, n):
+        c = mk_case(t["cls"], "uf-stress", {"position": "mixed", "pattern": "uf-stress", "family": t["family"]})
+        c["expect"] = (t["lcom4"], t["groups"])
+        out.append(c)
+    return out
+
+
+def e2e_stress(ck, stress, specs, runs=2):
+    """the stress classes through `pyscn analyze --json --select lcom`, one file per class, several fresh processes"""
+    d = lib.fresh_dir("c14_e2e_stress")
+    for i, c in enumerate(stress):
+        with open(os.path.join(d, "uf_%d.py" % i), "w") as f:
+            f.write(cg.file_src(dict(imports=[], classes=[]), c["cls"]))
+    n = bad = 0
+    for run in range(runs):
+        rc, data, err = lib.analyze_json(d, ["--select", "lcom"], env={"GOMAXPROCS": "1" if run % 2 else "4"})
+        if data is None or "lcom" not in data:
+            ck.broken_ties.append("e2e stress: pyscn analyze produced no lcom report (rc=%s): %s" % (rc, err[-300:]))
+            continue
+        got = {os.path.basename(cl["FilePath"]): cl for cl in data["lcom"].get("Classes") or []}
+        for i, c in enumerate(stress):
+            if specs[i] is None:
+                continue
+            n += 1
+            s4, sgroups = specs[i]
+            cl = got.get("uf_%d.py" % i)
+            src = cg.file_src(dict(imports=[], classes=[]), c["cls"])
+            if cl is None:
+                ck.violation("class K of uf_%d.py missing from lcom.Classes[]" % i, {"kind": "e2e-uf-stress", "source": src})
+                continue
+            m = cl["Metrics"]
+            cli = (m["LCOM4"], sorted(sorted(g) for g in (m["MethodGroups"] or [])))
+            if cli != (s4, sgroups):
+                bad += 1
+                if bad <= 2:
+                    ck.violation("pyscn analyze (run %d of %d on the same files) reports LCOM4 %d, groups %s; the method graph has %d connected components %s [%s]"
+                                 % (run + 1, runs, cli[0], cli[1], s4, sgroups, c["tags"]),
+                                 {"kind": "e2e-uf-stress", "tags": c["tags"], "source": src, "cli": cl, "spec": {"lcom4": s4, "groups": sgroups}})
+    return n
 
 
 def coq_opts(c, dlow, dmed):
@@ -211,6 +257,7 @@ def main(tier):
     rng = ck.rng
     thorough = tier == "thorough"
     n_rand = 4000 if thorough else 420
+    n_stress, n_runs = (400, 8) if thorough else (40, 6)
     model_ok = not any(("Class/Syntax" in f or "Class/SetK" in f or "Class/UF" in f or "Class/LCOM.v" in f or "Class/LCOMRun" in f
                         or "Class/CBO.v" in f or "Class/CBORun" in f or "Gen/" in f) for f in ck.failed_files)
     if not ck.go_ok or not model_ok:
@@ -230,6 +277,8 @@ def main(tier):
         k = rng.random()
         cls = rand_class(rng, dup=k < 0.2, mixed=k < 0.05)
         cases.append(mk_case(cls, "random", {"position": "mixed", "pattern": "random"}))
+    stress_at = len(cases)
+    cases += stress_cases(rng, n_stress)
     reqs = []
     for c in cases:
         r = {"op": "lcom", "src": cg.file_src(dict(imports=[], classes=[]), c["cls"])}
@@ -238,13 +287,22 @@ def main(tier):
         reqs.append(r)
     impl = lib.driver(reqs)
     dlow, dmed = impl[0].get("low", 2), impl[0].get("medium", 5)
+    # the union-find stress classes again, n_runs - 1 more times each (a fresh process; interleaved, every request iterates its maps anew)
+    again = {}
+    try:
+        rep_idx = [i for _ in range(n_runs - 1) for i in range(stress_at, len(cases))]
+        for i, r in zip(rep_idx, lib.driver([reqs[i] for i in rep_idx])):
+            again.setdefault(i, []).append(r)
+    except Exception as e:
+        ck.broken_ties.append("repeated analysis of the union-find stress classes failed: %s" % str(e)[-600:])
     try:
         model = eval_coq(cases, dlow, dmed)
     except Exception as e:
         ck.broken_ties.append("model evaluation failed: %s" % str(e)[-800:])
         model = None
 
-    n_viol = n_tie = n_known = 0
+    n_viol = n_tie = n_known = n_stress_runs = 0
+    stress_specs = [None] * (len(cases) - stress_at)
     dist, sizes, comps = {}, {}, {}
     distinct = set()
     results = []
@@ -278,7 +336,29 @@ def main(tier):
                       spec={"lcom4": s4, "groups": sgroups, "instance_methods": sorted(cg.decode(v) for v in sverts)})
         same_as_model = (ic["lcom4"], igroups, ic["total"], ic["excluded"], RISK.get(ic["risk"])) == (m4, mgroups, mtotal, mexcl, mrisk)
         bad = None
-        if ic["lcom4"] != s4:
+        if c["kind"] == "uf-stress":
+            stress_specs[idx - stress_at] = (s4, sgroups)
+            if c["expect"] != (s4, sgroups):
+                ck.broken_ties.append("union-find stress generator and Class/LCOM.v spec disagree on the components of\n%s\n generator %s, spec %s"
+                                      % (src, c["expect"], (s4, sgroups)))
+            # every further run of the same class must give the spec value too
+            runs = [(ic["lcom4"], igroups, ic["risk"])]
+            for r2 in again.get(idx, []):
+                if "error" in r2 or len(r2.get("classes", [])) != 1:
+                    runs.append(("error", str(r2)[:200], None))
+                else:
+                    x = r2["classes"][0]
+                    runs.append((x["lcom4"], sorted(sorted(g) for g in x["groups"]), x["risk"]))
+            n_stress_runs += len(runs)
+            replay["runs"] = [{"lcom4": a, "groups": b, "risk": d} for a, b, d in runs]
+            wrong = [k for k, (a, b, d) in enumerate(runs) if (a, b) != (s4, sgroups) or RISK.get(d) != spec_risk(lo, me, s4)]
+            if wrong:
+                k = wrong[0]
+                bad = ("run %d of %d analyses of the same class reports LCOM4 %s, groups %s, risk %s; the method graph has %d connected components %s (LCOM4 per run: %s)"
+                       % (k + 1, len(runs), runs[k][0], runs[k][1], runs[k][2], s4, sgroups, [a for a, _, _ in runs]))
+        if bad:
+            pass
+        elif ic["lcom4"] != s4:
             bad = "LCOM4 %d, the method graph has %d connected components" % (ic["lcom4"], s4)
         elif igroups != sgroups:
             bad = "method groups %s are not the components %s" % (igroups, sgroups)
@@ -307,15 +387,23 @@ def main(tier):
     except Exception as e:
         ck.broken_ties.append("e2e run failed: %s" % str(e)[-600:])
 
-    ck.samples = [{"source": reqs[i]["src"], "impl": results[i], "tags": cases[i]["tags"]} for i in (2, len(cases) - 2) if results[i]]
+    try:
+        n_e2e += e2e_stress(ck, cases[stress_at:], stress_specs)
+    except Exception as e:
+        ck.broken_ties.append("e2e stress run failed: %s" % str(e)[-600:])
+
+    ck.samples = [{"source": reqs[i]["src"], "impl": results[i], "tags": cases[i]["tags"]} for i in (2, stress_at - 2, len(cases) - 2) if results[i]]
     ck.cov.update({
-        "evaluations": len(cases) + n_table + n_e2e,
+        "evaluations": len(cases) + n_table + n_e2e + max(0, n_stress_runs - (len(cases) - stress_at)),
         "distinct_nontrivial": len(distinct),
         "rule": "position x access-pattern matrix (self.x shared, self.m() call, shared call name, other.x, cls.x, attribute named like a method, "
                 "self.x / self.m() hidden in the argument list of another call), "
                 "threshold lattice (1..8 components x 9 threshold pairs), random classes (0..12 methods, shared attributes, self-calls, static/class methods, "
-                "duplicate method names, every position), parser position table, CLI runs with default and custom [lcom] thresholds; distinct = distinct source texts",
-        "input_distribution": dict(dist, position_table_probes=n_table, e2e_classes=n_e2e,
+                "duplicate method names, every position), union-find stress classes (6..14 methods, every attribute shared by two or three methods, no method touching everything: "
+                "random/deep trees, forests, trees with extra edges, chains joined in the middle, pairs joined through a third attribute, stars linked leaf to leaf, caterpillars; "
+                "self-calls mixed with attribute edges; EACH class analysed %d times by the driver in two processes and twice by the CLI, the spec value required every time), "
+                "parser position table, CLI runs with default and custom [lcom] thresholds; distinct = distinct source texts" % n_runs,
+        "input_distribution": dict(dist, position_table_probes=n_table, e2e_classes=n_e2e, uf_stress_driver_runs=n_stress_runs,
                                    instance_method_count_histogram=dict(sorted(sizes.items())), component_count_histogram=dict(sorted(comps.items()))),
         "known_finding_cases": n_known,
         "model_mismatches": n_tie,
